@@ -496,6 +496,28 @@ class TreeSim(taps.Sim):
 
         return walk(self.root)
 
+    def paper_zero_base(self, msg):
+        """was the return-on-a-zero-base error raised by a paper-trading copy (they trade a fixed notional of their own, not
+        modelled by the ledger) whose base - last value plus net flows - is zero?"""
+        if not msg.startswith("Could not update "):
+            return False
+        name = msg[len("Could not update "):].split(" on ")[0]
+        found = []
+
+        def walk(strat):
+            for c in strat.children.values():
+                if hasattr(c, "capital"):
+                    p = getattr(c, "_paper", None)
+                    if p is not None:
+                        for n in p.members:
+                            if hasattr(n, "capital") and n.name == name and abs(getattr(n, "_last_value", 1.0) + getattr(n, "_net_flows", 0.0)) < TOL:
+                                found.append(n)
+                        walk(p)
+                    walk(c)
+
+        walk(self.root)
+        return bool(found)
+
     def touched(self, n):
         """has anything ever moved through this strategy today (so that float residue is possible)?"""
         if n.cash != 0.0 or n.flows_today != 0.0 or n.last_value != 0.0 or n.fees_today != 0.0 or n.activity_today:
@@ -516,6 +538,11 @@ class TreeSim(taps.Sim):
             return fn()
         except ZeroDivisionError as e:
             hz = self.zero_base_hazard()
+            if hz is None and self.paper_zero_base(str(e)):
+                # the library's own paper-trading copy of a sub-strategy was fully invested in a name quoted at zero (a held
+                # position without a positive price: not well-formed input), and now moves off that zero base
+                self.fire("zero_base_raise_in_paper_copy")
+                raise Stop("zero_base")
             if hz is None:
                 self.c10("unexpected_exception", "%s: ZeroDivisionError %s" % (what, str(e)[:200]), {"exc": "ZeroDivisionError"})
                 raise Stop("unexpected_zde")
